@@ -93,6 +93,10 @@ FEATURES = {
                                     "/b": {"post": {"operationId": "postB", "requestBody": {"required": True, "content": {"application/json": {"schema": S("Item")}}}, "responses": {"204": {"description": "n"}}}}}},
     # the request body is an array of the array alias Host; Key is otherwise response-only
     "nested-array-body": featgen.wrap({"Key": OBJ({"n": {"type": "integer"}}), "Host": {"type": "array", "items": S("Key")}}, body={"type": "array", "items": S("Host")}, resp="Host"),
+    # Item is the NULLABLE-WRAPPED request body of one operation and a response of another
+    "nullable-body": {"openapi": "3.1.0", "info": {"title": "t", "version": "1"}, "components": {"schemas": {"Item": OBJ({"x": {"type": "string"}})}},
+                      "paths": {"/a": {"post": {"operationId": "postA", "requestBody": {"required": True, "content": {"application/json": {"schema": {"anyOf": [S("Item"), {"type": "null"}]}}}}, "responses": {"204": {"description": "n"}}}},
+                                "/b": {"get": {"operationId": "getB", "responses": {"200": {"description": "ok", "content": {"application/json": {"schema": S("Item")}}}}}}}},
     "param-clash": featgen.wrap({"A": OBJ({"x": {"type": "string"}})}, resp="A", method="get",
                                 params=[{"name": "id", "in": "query", "schema": {"type": "string"}}, {"name": "id", "in": "header", "schema": {"type": "integer"}}]),
     "sep-int": featgen.wrap({"A": OBJ({"x": {"type": "string"}})}, resp="A", method="get",
